@@ -19,7 +19,7 @@ func init() {
 		ID:          "C18",
 		Explanation: "Decided (configuration table, constants folded by go/types and compared with the repository's own documentation): the go/build.Context used for user packages has Compiler gc, cgo disabled, the user tags followed by exactly the always-on tags netgo, purego, math_big_pure_go, gopherjs, and release tags truncated at the supported Go version, which agrees between the GoVersion constant, the Version string, the version_check build constraint, the go directive of go.mod and the versionhack package; the default environment is js/ecmascript unless overridden; standard-library packages are loaded as js/wasm exactly under the isStd test; user tags flow from the options into the context; .inc.js discovery filters by suffix and leading _ or . only. NOT decided: go/build's evaluation of constraint expressions and file-name suffixes (trusted).",
 		Assumptions: []string{"go/build evaluates //go:build expressions and _GOOS/_GOARCH suffixes as documented"},
-		Rules:       []RuleFunc{ruleC18Config},
+		Rules:       []RuleFunc{ruleC18Config, ruleC18CLI},
 	})
 }
 
@@ -234,5 +234,109 @@ func ruleC18Config(c *ctx.Ctx, r *core.Reporter) {
 	}
 	if ij := c.FuncDecl("compiler/incjs", "isIncJS"); ij != nil {
 		r.Check(strings.Contains(nodeString(c, ij.Body), "strings.HasSuffix(filename, Ext)"), "incjs:suffix", c.Pos(ij.Pos()), ".inc.js files are recognised by their suffix")
+	}
+}
+
+// ruleC18CLI: the --tags flag value reaches Options.BuildTags completely.
+func ruleC18CLI(c *ctx.Ctx, r *core.Reporter) {
+	r.Begin("C18.cli", "F-KEY", "every command stores all tags of the --tags flag into Options.BuildTags: the flag string is split with strings.Fields, or by a helper that uses only unbounded splitting/replacing operations", 5)
+	p := c.Pkg("")
+	if p == nil {
+		r.Undecided("main", "tool.go", "package main not loaded")
+		return
+	}
+	info := p.TypesInfo
+	helpers := map[string]*ast.FuncDecl{}
+	for _, fd := range c.AllFuncDecls("") {
+		helpers[fd.Name.Name] = fd
+	}
+	// the variable bound to the "tags" flag
+	flagVar := ""
+	for _, fd := range c.AllFuncDecls("") {
+		if fd.Body == nil {
+			continue
+		}
+		ast.Inspect(fd.Body, func(n ast.Node) bool {
+			if ce, ok := n.(*ast.CallExpr); ok && len(ce.Args) >= 2 {
+				if _, _, nm := callee(info, ce); nm == "StringVar" {
+					if tv, ok := info.Types[ce.Args[1]]; ok && tv.Value != nil && tv.Value.ExactString() == `"tags"` {
+						flagVar = strings.TrimPrefix(exprStr(ce.Args[0]), "&")
+					}
+				}
+			}
+			return true
+		})
+	}
+	r.Check(flagVar != "", "cli:flag", "tool.go", "the --tags flag is bound to variable "+flagVar)
+	n := 0
+	for _, fd := range c.AllFuncDecls("") {
+		if fd.Body == nil {
+			continue
+		}
+		ast.Inspect(fd.Body, func(x ast.Node) bool {
+			as, ok := x.(*ast.AssignStmt)
+			if !ok || len(as.Lhs) != 1 || !strings.HasSuffix(exprStr(as.Lhs[0]), ".BuildTags") || len(as.Rhs) != 1 {
+				return true
+			}
+			n++
+			rhs := as.Rhs[0]
+			key := fmt.Sprintf("cli:assign#%d", n)
+			ce, isCall := rhs.(*ast.CallExpr)
+			if !isCall || len(ce.Args) != 1 || exprStr(ce.Args[0]) != flagVar {
+				r.Undecided(key, c.Pos(as.Pos()), "BuildTags is assigned from "+exprStr(rhs)+", not from a function of the flag value")
+				return true
+			}
+			pkg, _, nm := callee(info, ce)
+			if pkg == "strings" && nm == "Fields" {
+				r.OK(key, c.Pos(as.Pos()), "BuildTags = strings.Fields("+flagVar+"): every whitespace-separated tag is kept")
+				return true
+			}
+			h := helpers[nm]
+			if h == nil || h.Body == nil {
+				r.Undecided(key, c.Pos(as.Pos()), "BuildTags is computed by "+exprStr(ce.Fun)+", which the checker cannot analyse")
+				return true
+			}
+			// helper: only unbounded operations
+			splits, bounded := false, ""
+			ast.Inspect(h.Body, func(m ast.Node) bool {
+				switch y := m.(type) {
+				case *ast.CallExpr:
+					hp, _, hn := callee(info, y)
+					if hp == "strings" {
+						switch hn {
+						case "Fields", "FieldsFunc", "Split":
+							splits = true
+						case "SplitN", "SplitAfterN", "Cut", "Index", "IndexByte":
+							bounded = "strings." + hn
+						case "Replace":
+							if len(y.Args) == 4 {
+								if tv, ok := info.Types[y.Args[3]]; !ok || tv.Value == nil || !strings.HasPrefix(tv.Value.ExactString(), "-") {
+									bounded = "strings.Replace with a non-negative count"
+								}
+							}
+						}
+					}
+				case *ast.SliceExpr:
+					if y.High != nil {
+						if tv, ok := info.Types[y.High]; ok && tv.Value != nil {
+							bounded = "a slice with a constant upper bound"
+						}
+					}
+				}
+				return true
+			})
+			switch {
+			case bounded != "":
+				r.Violation(key, c.Pos(as.Pos()), fmt.Sprintf("BuildTags is computed by %s, which uses %s: only part of the flag value is processed, so some of the user's tags are silently dropped", nm, bounded))
+			case !splits:
+				r.Undecided(key, c.Pos(as.Pos()), nm+" does not split the flag value with strings.Fields/Split")
+			default:
+				r.OK(key, c.Pos(as.Pos()), nm+" splits the whole flag value with unbounded operations")
+			}
+			return true
+		})
+	}
+	if n < 4 {
+		r.Undecided("cli:assignments", "tool.go", fmt.Sprintf("expected BuildTags assignments in build/install/run/test/serve; found %d", n))
 	}
 }
